@@ -72,8 +72,8 @@ structure EndG (σ0 : FState) (M : List Nat) (t1 t3 t5 : CState) : Prop where
 
 /-- the statement's result is kept to the end: the inline `uncompute` replays, in reverse, the gates whose
 target is marked; `bennettF` shows that the released ancillas are zero again -/
-theorem stmt_unc {scope : List String} {r : String} {v : Bool} {iret : Nat} {unc : List Nat} {u : Unit}
-    {s t1 t3 t4 t5 : CState} (bi : BI scope ρ σ0 s) (tp : TopG scope ρ σ0 r v s t1 iret)
+theorem stmt_unc {scope : List String} {r : String} {v nc : Bool} {iret : Nat} {unc : List Nat} {u : Unit}
+    {s t1 t3 t4 t5 : CState} (bi : BI scope ρ σ0 s) (tp : TopG scope ρ σ0 r v nc s t1 iret)
     (hd : HeadG r t1 t3 iret)
     (hunc : uncompute.run t3 = .ok (unc, t4)) (hrm : (expqRemove unc).run t4 = .ok (u, t5)) :
     EndG σ0 t1.qc.marked t1 t3 t5 := by
@@ -184,8 +184,8 @@ theorem stmt_unc {scope : List String} {r : String} {v : Bool} {iret : Nat} {unc
 
 /-- the statement's result is undone by the final `uncompute_all`: `keep_ancillas` leaves every qubit as it
 is, moves the ancillas in use to the kept set and drops the marks -/
-theorem stmt_keep {scope : List String} {r : String} {v : Bool} {iret : Nat} {u : Unit}
-    {s t1 t3 t5 : CState} (bi : BI scope ρ σ0 s) (tp : TopG scope ρ σ0 r v s t1 iret)
+theorem stmt_keep {scope : List String} {r : String} {v nc : Bool} {iret : Nat} {u : Unit}
+    {s t1 t3 t5 : CState} (bi : BI scope ρ σ0 s) (tp : TopG scope ρ σ0 r v nc s t1 iret)
     (hd : HeadG r t1 t3 iret) (hk : keepAncillas.run t3 = .ok (u, t5)) : EndG σ0 [] t1 t3 t5 := by
   have gi := tp.gi
   have hg5 : Good t5 := (keepAncillas_ok (B := fun _ => True) hk hd.g3).good
@@ -232,8 +232,8 @@ theorem stmt_keep {scope : List String} {r : String} {v : Bool} {iret : Nat} {u 
 /-- the invariant for the next statement: the scope extended by the defined name, the environment updated at
 the defined name (which may have been bound before) -/
 theorem BI.step {scope : List String} {env : List (String × Bool)} {e : BExp} {r : String} {iret : Nat}
-    {M : List Nat} {s t1 t3 t5 : CState} (bi : BI scope (envOf env) σ0 s)
-    (tp : TopG scope (envOf env) σ0 r (e.eval (envOf env)) s t1 iret)
+    {nc : Bool} {M : List Nat} {s t1 t3 t5 : CState} (bi : BI scope (envOf env) σ0 s)
+    (tp : TopG scope (envOf env) σ0 r (e.eval (envOf env)) nc s t1 iret)
     (hd : HeadG r t1 t3 iret) (he : EndG σ0 M t1 t3 t5) (hM : ∀ m ∈ M, m ∈ t1.qc.anc ∧ m ≠ iret)
     (hbind : ∀ n ∈ scope, n ≠ r → ∃ q, dictGet? t1.qc.qmap n = some q)
     (hres : reservedName r = false) :
